@@ -6,11 +6,23 @@
 
 package smtp
 
+//@ contract (*dataReader).skipEndMarker(r) (ok)
+//@   prop C01 C02 C06 C07
+//@   requires drInv(r)
+//@   modifies r.state, r.r.pos, r.r.iofail, r.r.unreadable, r.r.peekedTo
+//@   ensures unfold: dO(r.r.in, r.start, old(r.r.pos) + 1) >= 0 && dO(r.r.in, r.start, old(r.r.pos) + 2) >= 0 && dO(r.r.in, r.start, old(r.r.pos) + 3) >= 0 && dS(r.r.in, r.start, old(r.r.pos) + 1) <= 5 && dS(r.r.in, r.start, old(r.r.pos) + 2) <= 5 && dS(r.r.in, r.start, old(r.r.pos) + 3) <= 5
+//@   ensures inv: drInv(r)
+//@   ensures monotone: r.r.pos >= old(r.r.pos)
+//@   ensures @C06,C02 skipped-only-an-end-marker: ok ==> r.state == 5 && dS(r.r.in, r.start, r.r.pos) == 5 && noMoreOutput(old(dS(r.r.in, r.start, r.r.pos)), r.r.in, old(r.r.pos))
+//@   ensures @C06 otherwise-nothing-consumed: !ok ==> r.state == old(r.state) && r.r.pos == old(r.r.pos)
+//@   ensures @C06 more-of-the-message-follows: !ok ==> !noMoreOutput(dS(r.r.in, r.start, r.r.pos), r.r.in, r.r.pos) || r.r.iofail
+//@   ensures @C02 no-read-after-end: old(r.state) == 5 ==> ok && r.r.pos == old(r.r.pos)
+
 //@ contract (*dataReader).Read(r, b) (n, err)
 //@   prop C01 C02 C06 C07 C16
 //@   requires drInv(r)
 //@   ghostset r.delivered = old(r.delivered) + n
-//@   modifies r.state, r.n, r.delivered, b[*], r.r.pos, r.r.iofail, r.r.unreadable
+//@   modifies r.state, r.n, r.delivered, b[*], r.r.pos, r.r.iofail, r.r.unreadable, r.r.peekedTo
 //@   ensures inv: drInv(r)
 //@   ensures count: 0 <= n && n <= len(b)
 //@   ensures content: forall j :: 0 <= j && j < n ==> b[j] == outv(r.r.in, r.start, old(r.delivered) + j)
@@ -20,7 +32,7 @@ package smtp
 //@   ensures @C02 errcond: err != nil ==> r.state == 5 || (r.limited && old(r.n) <= 0) || r.r.iofail
 //@   ensures @C06 budget: r.limited ==> r.delivered <= r.limit
 //@   ensures @C06 toolarge: err == ErrDataTooLarge ==> r.limited && old(r.n) <= 0 && n == 0
-//@   ensures @C06 limit-transparent: err == ErrDataTooLarge ==> !noMoreOutput(dS(r.r.in, r.start, r.r.pos), r.r.in, r.r.pos)
+//@   ensures @C06 limit-transparent: err == ErrDataTooLarge ==> !noMoreOutput(dS(r.r.in, r.start, r.r.pos), r.r.in, r.r.pos) || r.r.iofail
 //@   loop 1:
 //@     invariant r.r != nil && r.start <= r.r.pos && r.r.pos >= old(r.r.pos) && 0 <= r.state && r.state <= 5
 //@     invariant 0 <= n && n <= len(b)
